@@ -21,27 +21,35 @@ def fbits(f):
     return "%016x" % struct.unpack(">Q", struct.pack(">d", f))[0]
 
 
+def node(t, s="", d=None, xs=None):
+    return {"t": t, "s": s, "d": d or [], "xs": xs or []}
+
+
 def s_tree(s):
-    return {"t": "str", "v": [ord(c) for c in s]}
+    return node("str", s.encode("utf-8", "surrogatepass").hex())
+
+
+def i_tree(i):
+    return node("int", str(i), [1 if i < 0 else 0] + [int(c) for c in str(abs(i))])
 
 
 def py_tree(v):
     if v is None:
-        return {"t": "null"}
+        return node("null")
     if isinstance(v, bool):
-        return {"t": "bool", "v": v}
+        return node("bool", "true" if v else "false")
     if isinstance(v, int):
-        return {"t": "int", "v": str(v)}
+        return i_tree(v)
     if isinstance(v, float):
-        return {"t": "float", "v": fbits(v)}
+        return node("float", fbits(v))
     if isinstance(v, str):
         return s_tree(v)
     if isinstance(v, (datetime.datetime, datetime.date, datetime.time)):
-        return {"t": "datetime", "v": v.isoformat()}
+        return node("datetime", v.isoformat())
     if isinstance(v, list):
-        return {"t": "seq", "v": [py_tree(x) for x in v]}
+        return node("seq", xs=[py_tree(x) for x in v])
     if isinstance(v, dict):
-        return {"t": "map", "v": [[s_tree(k) if isinstance(k, str) else py_tree(k), py_tree(x)] for k, x in v.items()]}
+        return node("map", xs=[node("pair", xs=[s_tree(k) if isinstance(k, str) else py_tree(k), py_tree(x)]) for k, x in v.items()])
     raise ValueError("unsupported %r" % type(v))
 
 
@@ -58,34 +66,36 @@ RE_INF = re.compile(r"^[-+]?\.(inf|Inf|INF)$")
 RE_NAN = re.compile(r"^\.(nan|NaN|NAN)$")
 
 
-def yaml_tree(node, yaml, depth=0):
-    if isinstance(node, yaml.ScalarNode):
-        v = node.value
-        explicit = node.tag if not node.tag.startswith("tag:yaml.org,2002:") or node.style is None and False else None
-        if node.style is None:  # plain scalar: resolve by the core schema
+def yaml_tree(ynode, yaml, depth=0):
+    if isinstance(ynode, yaml.ScalarNode):
+        v = ynode.value
+        if ynode.style is None:  # plain scalar: resolve by the core schema
             if RE_NULL.match(v):
-                return {"t": "null"}
+                return node("null")
             if RE_TRUE.match(v):
-                return {"t": "bool", "v": True}
+                return node("bool", "true")
             if RE_FALSE.match(v):
-                return {"t": "bool", "v": False}
+                return node("bool", "false")
             if RE_INT.match(v):
-                return {"t": "int", "v": str(int(v))}
+                return i_tree(int(v))
             if RE_OCT.match(v):
-                return {"t": "int", "v": str(int(v[2:], 8))}
+                return i_tree(int(v[2:], 8))
             if RE_HEX.match(v):
-                return {"t": "int", "v": str(int(v[2:], 16))}
+                return i_tree(int(v[2:], 16))
             if RE_FLOAT.match(v):
-                return {"t": "float", "v": fbits(float(v))}
+                return node("float", fbits(float(v)))
             if RE_INF.match(v):
-                return {"t": "float", "v": fbits(float("-inf") if v.startswith("-") else float("inf"))}
+                return node("float", fbits(float("-inf") if v.startswith("-") else float("inf")))
             if RE_NAN.match(v):
-                return {"t": "float", "v": "nan"}
+                return node("float", "nan")
+        if ynode.tag == "tag:yaml.org,2002:binary":
+            import base64
+            return node("bin", base64.b64decode(v).hex())
         return s_tree(v)
-    if isinstance(node, yaml.SequenceNode):
-        return {"t": "seq", "v": [yaml_tree(x, yaml, depth + 1) for x in node.value]}
-    if isinstance(node, yaml.MappingNode):
-        return {"t": "map", "v": [[yaml_tree(k, yaml, depth + 1), yaml_tree(x, yaml, depth + 1)] for k, x in node.value]}
+    if isinstance(ynode, yaml.SequenceNode):
+        return node("seq", xs=[yaml_tree(x, yaml, depth + 1) for x in ynode.value])
+    if isinstance(ynode, yaml.MappingNode):
+        return node("map", xs=[node("pair", xs=[yaml_tree(k, yaml, depth + 1), yaml_tree(x, yaml, depth + 1)]) for k, x in ynode.value])
     raise ValueError("unknown node")
 
 
@@ -102,8 +112,8 @@ def decode(fmt, data):
             loader = yaml.SafeLoader
         text = data.decode("utf-8")
         docs = []
-        for node in yaml.compose_all(text, Loader=yaml.SafeLoader):
-            docs.append({"t": "null"} if node is None else yaml_tree(node, yaml))
+        for n in yaml.compose_all(text, Loader=yaml.SafeLoader):
+            docs.append(node("null") if n is None else yaml_tree(n, yaml))
         return docs
     if fmt == "json":
         docs = []
@@ -114,11 +124,11 @@ def decode(fmt, data):
 
         def conv(v):
             if isinstance(v, tuple):
-                return {"t": "float", "v": fbits(float(v[1]))} if v[0] == "f" else {"t": "int", "v": str(int(v[1]))}
+                return node("float", fbits(float(v[1]))) if v[0] == "f" else i_tree(int(v[1]))
             if isinstance(v, list):
-                return {"t": "seq", "v": [conv(x) for x in v]}
+                return node("seq", xs=[conv(x) for x in v])
             if isinstance(v, dict):
-                return {"t": "map", "v": [[s_tree(k), conv(x)] for k, x in v.items()]}
+                return node("map", xs=[node("pair", xs=[s_tree(k), conv(x)]) for k, x in v.items()])
             return py_tree(v)
         while True:
             while i < n and text[i] in " \t\r\n":
